@@ -153,3 +153,99 @@ Example host_sets_nonvacuous :
   NoDup (host_sets (r_maps (find_common_subgraph [9] false 9 ga gb false))).
 Proof. split; [vm_compute; reflexivity|]. split; [vm_compute; reflexivity|apply host_sets_spec]. Qed.
 End Example_auto.
+
+(* ------------------------------------------------------------------ VF2's choices as a parameter (round 4) *)
+Lemma insertN_comm x y l : insertN x (insertN y l) = insertN y (insertN x l).
+Proof.
+  induction l as [|z r IH]; simpl.
+  - destruct (N.leb_spec x y), (N.leb_spec y x); try reflexivity; try lia.
+    assert (x = y) by lia. now subst.
+  - destruct (N.leb_spec y z), (N.leb_spec x z); simpl;
+      repeat match goal with |- context [N.leb ?a ?b] => destruct (N.leb_spec a b) end;
+      try reflexivity; try lia; try (assert (x = y) by lia; subst; reflexivity); try (now rewrite IH).
+Qed.
+
+Lemma sortN_perm_eq l l' : Permutation.Permutation l l' -> fold_right insertN [] l = fold_right insertN [] l'.
+Proof.
+  induction 1; simpl; try congruence. apply insertN_comm.
+Qed.
+
+Lemma host_set_perm_eq m m' : Permutation.Permutation m m' -> host_set m = host_set m'.
+Proof. intros P. unfold host_set. apply sortN_perm_eq. now apply Permutation.Permutation_map. Qed.
+
+Lemma nodup_sets_spec l : nodup_sets l = true -> NoDup l.
+Proof.
+  induction l as [|x r IH]; simpl; intros H; [constructor|]. apply andb_prop in H. destruct H as [H1 H2].
+  constructor; [|now apply IH]. intros I. apply negb_true_iff in H1.
+  assert (existsb (nlist_eqb x) r = true) by (apply existsb_exists; exists x; split; [exact I|now apply nlist_eqb_eq]). congruence.
+Qed.
+
+Theorem apply_choices_spec maps choices kept : apply_choices maps choices = Some kept ->
+  (forall k, In k kept -> In k maps /\ exists c, In c choices /\ k = sort_items c) /\
+  NoDup (map host_set kept) /\
+  (forall m, In m maps -> exists k, In k kept /\ host_set k = host_set m) /\
+  Sorted result_le kept.
+Proof.
+  unfold apply_choices. set (cs := filter (fun c => seen c maps) (map sort_items choices)).
+  destruct (nodup_sets (map host_set cs) && forallb (fun hs => existsb (nlist_eqb hs) (map host_set cs)) (host_sets maps)) eqn:E;
+    [|discriminate].
+  intros [= <-]. apply andb_prop in E. destruct E as [E1 E2].
+  assert (Hin : forall k, In k (sort_results cs) <-> In k cs) by (intros; apply sort_results_in).
+  split; [|split; [|split]].
+  - intros k Hk. apply Hin in Hk. unfold cs in Hk. apply filter_In in Hk. destruct Hk as (Hk & Hs).
+    split; [now apply seen_spec|]. apply in_map_iff in Hk. destruct Hk as (c & <- & Ic). eauto.
+  - eapply Permutation.Permutation_NoDup; [apply Permutation.Permutation_map, Permutation.Permutation_sym, sort_results_perm|].
+    now apply nodup_sets_spec.
+  - intros m Hm. rewrite forallb_forall in E2.
+    assert (Ih : In (host_set m) (host_sets maps)) by (apply host_sets_spec; eauto).
+    specialize (E2 _ Ih). apply existsb_exists in E2. destruct E2 as (hs & Ihs & Eq). apply nlist_eqb_eq in Eq. subst hs.
+    apply in_map_iff in Ihs. destruct Ihs as (k & Ek & Ik). exists k. split; [now apply Hin|exact Ek].
+  - apply sort_results_sorted.
+Qed.
+
+(** prune_automorphisms=True with VF2's choices as a parameter: whatever accepted choices are supplied, the kept mappings
+    are valid (for the oriented pair), have pairwise different host node sets, are sorted, and in maximum mode every
+    maximum common induced mapping has its host node set represented *)
+Theorem prune_auto_choices_valid defs prune wc (g1 g2 : graph) mcs choices kept :
+  NoDup (node_ids g1) -> NoDup (node_ids g2) ->
+  let r := find_common_subgraph defs prune wc g1 g2 mcs in
+  let ga := if r_pattern_is_g1 r then prune_graph prune wc g1 else prune_graph prune wc g2 in
+  let gb := if r_pattern_is_g1 r then prune_graph prune wc g2 else prune_graph prune wc g1 in
+  apply_choices (r_maps r) choices = Some kept ->
+  (forall k, In k kept -> common_induced (node_match defs) edge_match ga gb k /\ In k (r_maps r) /\
+                          exists c, In c choices /\ k = sort_items c) /\
+  NoDup (map host_set kept) /\ Sorted result_le kept /\
+  (mcs = true -> (forall k, In k kept -> length k = r_last r) /\
+     forall m, common_induced (node_match defs) edge_match ga gb m -> length m = r_last r -> 1 <= r_last r ->
+               exists k, In k kept /\ host_set k = host_set m).
+Proof.
+  intros N1 N2 r ga gb E.
+  destruct (apply_choices_spec _ _ _ E) as (S1 & S2 & S3 & S4).
+  assert (Hp2h : get_mappings PatternToHost r = r_maps r) by reflexivity.
+  split; [|split; [exact S2|split; [exact S4|]]].
+  - intros k Hk. destruct (S1 k Hk) as (Ik & Hc). split; [|split; [exact Ik|exact Hc]].
+    pose proof (proj2 (proj2 (fcs_valid defs prune wc g1 g2 N1 N2 mcs k))) as V. fold r in V.
+    specialize (V Ik). unfold ga, gb. destruct (r_pattern_is_g1 r); exact V.
+  - intros ->. destruct (fcs_maximum defs prune wc g1 g2 N1 N2) as (M12 & M21). fold r in M12, M21.
+    assert (M : MaxSpec (node_match defs) edge_match ga gb (r_maps r) (r_last r)).
+    { unfold ga, gb. unfold get_mappings in M12, M21. destruct (r_pattern_is_g1 r); assumption. }
+    destruct M as (A1 & A2 & A3 & A4). split.
+    + intros k Hk. apply A1. now apply S1.
+    + intros m Hm Hl H1. destruct (A3 m Hm Hl H1) as (m' & I' & P). destruct (S3 m' I') as (k & Ik & Ek).
+      exists k. split; [exact Ik|]. rewrite Ek. symmetry. now apply host_set_perm_eq.
+Qed.
+
+Module Example_choices.
+Import Example_sorted.
+Open Scope N_scope.
+(** ga = C1-C2=O3, gb = O10=C11-C12, all sizes.  Two possible VF2 choices for the host set {11,12}: both accepted, giving
+    different kept lists; a choice that is not a mapping of the result is ignored and then {10} has no representative *)
+Definition base := [[(1, 12); (2, 11); (3, 10)]; [(1, 12); (3, 10)]; [(2, 11); (3, 10)]; [(1, 11)]; [(1, 12)]; [(3, 10)]].
+Example choices_nonvacuous :
+  apply_choices (r_maps (find_common_subgraph [9] false 9 ga gb false)) (([(1, 11); (2, 12)] : mapping) :: base) =
+    Some [[(1, 12); (2, 11); (3, 10)]; [(1, 11); (2, 12)]; [(1, 12); (3, 10)]; [(2, 11); (3, 10)]; [(1, 11)]; [(1, 12)]; [(3, 10)]] /\
+  apply_choices (r_maps (find_common_subgraph [9] false 9 ga gb false)) (([(2, 11); (1, 12)] : mapping) :: base) =
+    Some [[(1, 12); (2, 11); (3, 10)]; [(1, 12); (2, 11)]; [(1, 12); (3, 10)]; [(2, 11); (3, 10)]; [(1, 11)]; [(1, 12)]; [(3, 10)]] /\
+  apply_choices (r_maps (find_common_subgraph [9] false 9 ga gb false)) (([(1, 11); (2, 12)] : mapping) :: [(1, 10)] :: removelast base) = None.
+Proof. repeat split; vm_compute; reflexivity. Qed.
+End Example_choices.
